@@ -480,12 +480,17 @@ func renderRunOne(b *BatchResult, prop string, seed, run uint64, nRandom int) {
 		nontriv := true
 		report := func(w *wlRender, s namedSched, mm []mismatch, st simrt.Stats) {
 			for _, x := range mm {
-				wj, _ := json.Marshal(w)
+				var wj []byte
+				desc := ""
+				if b.keeping() {
+					wj, _ = json.Marshal(w)
+					desc = describeRender(w)
+				}
 				cfg := s.cfg
 				cfg.Tape = st.TapeUsed
 				cfg.Generative = false
 				v := Violation{Property: prop, Engine: "rendersim", Class: x.class, Detail: x.detail, Seed: seed, Run: run,
-					Workload: wj, Sched: cfg, SchedName: s.name, Fingerprint: fpString(st.Fingerprint), Describe: describeRender(w)}
+					Workload: wj, Sched: cfg, SchedName: s.name, Fingerprint: fpString(st.Fingerprint), Describe: desc}
 				b.violation(v)
 			}
 		}
